@@ -18,6 +18,20 @@ EXTENDS Integers, Sequences, FiniteSets, TLC, Json
 
 CONSTANTS K                   \* operations per program
 
+\* arithmetic chains that mix a float local (gf = 1.5) with the int parameters, assigned to a local WITHOUT annotation:
+\* the C++ type of that local is whatever tranp infers for the chain.  Values are kept as twice the value (an integer).
+FlText == << "gf * a * b", "a * gf * b", "a * b * gf", "gf + a - b", "a - b + gf", "gf - a - b", "gf * a + b", "a + b * gf",
+             "gf * a * b * 3", "a * b + gf - a", "(gf * a) * b", "a * (b * gf)" >>
+FlVal2(i, a, b) ==
+  CASE i \in {1, 2, 3, 11, 12} -> 3 * a * b
+    [] i = 4 -> 3 + 2 * a - 2 * b
+    [] i = 5 -> 2 * a - 2 * b + 3
+    [] i = 6 -> 3 - 2 * a - 2 * b
+    [] i = 7 -> 3 * a + 2 * b
+    [] i = 8 -> 2 * a + 3 * b
+    [] i = 9 -> 9 * a * b
+    [] i = 10 -> 2 * a * b + 3 - 2 * a
+
 Keys == {"k", "jj", "zzz"}
 Chr == {"a", "b", ",", "x"}
 
@@ -96,6 +110,7 @@ Ops ==
   \* tuples, scalars, calls
   \cup {[k |-> "tuple"], [k |-> "tupleidx"], [k |-> "untuple"], [k |-> "ternary"], [k |-> "max"], [k |-> "min"], [k |-> "abs"], [k |-> "addn"], [k |-> "closure"], [k |-> "defarg"],
         [k |-> "castint"], [k |-> "caststr"], [k |-> "tryraise"], [k |-> "breakcont"], [k |-> "range3"], [k |-> "srfind2"], [k |-> "sfind2"], [k |-> "dgetplus"], [k |-> "dgetneg"], [k |-> "dpopdefault"], [k |-> "enumcontinue"], [k |-> "kwreorder"], [k |-> "kwskip"], [k |-> "swap"], [k |-> "dblcomp"], [k |-> "dblcompcond"], [k |-> "closureloop"], [k |-> "chaincmp"], [k |-> "andor"], [k |-> "range1"], [k |-> "range2"], [k |-> "range2len"], [k |-> "range3ab"], [k |-> "rangecomp1"], [k |-> "rangecomp2"]}
+  \cup {[k |-> "flchain", i |-> i] : i \in DOMAIN FlText}
 
 Undef == [undef |-> TRUE]
 IsUndef(st) == "undef" \in DOMAIN st
@@ -184,6 +199,7 @@ Apply(op, st) ==
     [] k = "dgetneg" -> [st EXCEPT !.n = 0 - (IF "jj" \in DOMAIN d THEN d["jj"] ELSE 9) * 2]
     [] k = "dpopdefault" -> [st EXCEPT !.n = IF "zzz" \in DOMAIN d THEN d["zzz"] ELSE st.b, !.d = DDel(d, "zzz")]
     [] k = "enumcontinue" -> [st EXCEPT !.n = st.n + WSumSkip(xs, 0, st.a)]
+    [] k = "flchain" -> [st EXCEPT !.n = st.n + FlVal2(op.i, st.a, st.b)]
     [] k = "kwreorder" -> [st EXCEPT !.n = st.b * 100 + 2 * 10 + 1]                            \* def kw(gx, gy=5, gz=7): gx*100 + gy*10 + gz ; n = kw(b, gz=1, gy=2)
     [] k = "kwskip" -> [st EXCEPT !.n = st.b * 100 + 5 * 10 + 1]                               \* n = ks(b, gz=1): gy keeps its default
     [] k = "swap" -> IF Len(xs) >= 2 THEN [st EXCEPT !.xs = [xs EXCEPT ![1] = xs[2], ![2] = xs[1]]] ELSE Undef
@@ -283,6 +299,7 @@ Text(op) ==
     [] k = "dgetplus" -> Line("n = d.get('k', b) + 1")
     [] k = "dgetneg" -> Line("n = -d.get('jj', 9) * 2")
     [] k = "dpopdefault" -> Line("n = d.pop('zzz', b)")
+    [] k = "flchain" -> Line("gf: float = 1.5") \o Line("gm = " \o FlText[op.i]) \o Line("n += int(gm * 2)")
     [] k = "enumcontinue" -> Line("for ci, cv in enumerate(xs):") \o Line("\tif cv == a:") \o Line("\t\tcontinue") \o Line("\tn += ci * 10 + cv")
     [] k = "kwreorder" -> Line("def kw(gx: int, gy: int = 5, gz: int = 7) -> int:") \o Line("\treturn gx * 100 + gy * 10 + gz") \o Line("n = kw(b, gz=1, gy=2)")
     [] k = "kwskip" -> Line("def ks(gx: int, gy: int = 5, gz: int = 7) -> int:") \o Line("\treturn gx * 100 + gy * 10 + gz") \o Line("n = ks(b, gz=1)")
@@ -324,7 +341,7 @@ Show(st) == IF IsUndef(st) THEN [undef |-> TRUE]
 Outcomes(ii, ops) == [j \in DOMAIN Args |-> Show(Run(ops, InitSt(ii, Args[j][1], Args[j][2])))]
 
 \* operations that declare a name (annotated local, nested function) occur at most once per program
-Declaring == {"kwreorder", "kwskip", "closureloop", "zipcomp", "nested", "nestedapp", "dictlist", "dintkey", "untuple", "closure", "defarg"}
+Declaring == {"flchain", "kwreorder", "kwskip", "closureloop", "zipcomp", "nested", "nestedapp", "dictlist", "dintkey", "untuple", "closure", "defarg"}
 Programs == {p \in [1..K -> Ops] : \A i, j \in 1..K : (i < j /\ p[i].k \in Declaring) => p[j].k # p[i].k}
 \* every value stays inside the agreement subset (|v| < 2^20) and no operation leaves the state space
 Bounded == \A ii \in DOMAIN InitText : \A p \in Programs : \A j \in DOMAIN Args :
